@@ -139,6 +139,23 @@ impl<F: Flavour> World<F> {
     /// Executes one operation through the public API (no catching).
     pub fn exec_raw(&self, op: &Op) -> Obs {
         match op {
+            // `Own` calls go through the original handle object itself (for u == v the very
+            // same object on both sides of the call); every other provenance yields a distinct
+            // handle object of the same node
+            Op::Connect { u, v, e, h: Prov::Own } => {
+                F::connect(&self.nodes[*u], &self.nodes[*v], EVal::new(*e));
+                Obs::Unit
+            }
+            Op::TryConnect { u, v, e, h: Prov::Own } => {
+                Obs::Res(F::try_connect(&self.nodes[*u], &self.nodes[*v], EVal::new(*e)).map_err(er))
+            }
+            Op::Disconnect { u, k, h: Prov::Own } => {
+                Obs::ResVal(F::disconnect(&self.nodes[*u], *k).map(|e| e.0).map_err(er))
+            }
+            Op::Isolate { u, h: Prov::Own } => {
+                F::isolate(&self.nodes[*u]);
+                Obs::Unit
+            }
             Op::Connect { u, v, e, h } => {
                 let hu = self.handle(*u, *h);
                 F::connect(&hu, &self.nodes[*v], EVal::new(*e));
@@ -224,6 +241,13 @@ impl<F: Flavour> World<F> {
 
     /// C01: the directed mirror invariant, read from the real nodes only.
     pub fn check_mirror(&self) -> Result<(), String> {
+        self.check_mirror_level(2)
+    }
+
+    /// `level` 0: the edge lists only; 1: also degrees and predicates; 2: also every
+    /// neighbour lookup of every pair. (Observation must not be what keeps the invariant true:
+    /// runs choose different levels.)
+    pub fn check_mirror_level(&self, level: u8) -> Result<(), String> {
         let n = self.n();
         let all: Vec<Lists> = (0..n).map(|u| self.lists(u)).collect();
         for u in 0..n {
@@ -242,6 +266,9 @@ impl<F: Flavour> World<F> {
                     return Err(format!("node {u} lists unknown key {k}"));
                 }
             }
+        }
+        if level == 0 {
+            return Ok(());
         }
         for u in 0..n {
             let node = &self.nodes[u];
@@ -265,6 +292,9 @@ impl<F: Flavour> World<F> {
                     F::is_leaf(node),
                     F::is_orphan(node)
                 ));
+            }
+            if level == 1 {
+                continue;
             }
             for v in 0..n {
                 let has_out = out.iter().any(|(k, _)| *k == v);
@@ -294,6 +324,10 @@ impl<F: Flavour> World<F> {
 
     /// C02: undirected symmetry, read from the real nodes only.
     pub fn check_symmetry(&self) -> Result<(), String> {
+        self.check_symmetry_level(2)
+    }
+
+    pub fn check_symmetry_level(&self, level: u8) -> Result<(), String> {
         let n = self.n();
         let all: Vec<Vec<(usize, u64)>> = (0..n).map(|u| self.lists(u).0).collect();
         for u in 0..n {
@@ -322,6 +356,9 @@ impl<F: Flavour> World<F> {
                     }
                 }
             }
+            if level == 0 {
+                continue;
+            }
             let d = F::out_degree(&self.nodes[u]);
             if d != all[u].len() {
                 return Err(format!("node {u}: degree {d} but iter yields {}", all[u].len()));
@@ -329,6 +366,9 @@ impl<F: Flavour> World<F> {
             if F::is_orphan(&self.nodes[u]) != all[u].is_empty() {
                 return Err(format!("node {u}: is_orphan disagrees with adjacency {:?}", all[u]));
             }
+        }
+        if level < 2 {
+            return Ok(());
         }
         for u in 0..n {
             for v in 0..n {
@@ -348,10 +388,14 @@ impl<F: Flavour> World<F> {
     }
 
     pub fn check_invariant(&self) -> Result<(), String> {
+        self.check_invariant_level(2)
+    }
+
+    pub fn check_invariant_level(&self, level: u8) -> Result<(), String> {
         if F::DIRECTED {
-            self.check_mirror()
+            self.check_mirror_level(level)
         } else {
-            self.check_symmetry()
+            self.check_symmetry_level(level)
         }
     }
 }
